@@ -172,3 +172,28 @@ Print Assumptions C14_user_table_no_loop.
 Theorem C14_user_table_never_panics : forall t e, table_total t -> exists outs, ctcp_stage t e = Ok outs.
 Proof. exact stage_total_table. Qed.
 Print Assumptions C14_user_table_never_panics.
+
+(* ---- the sending side (commands.go SendCTCP, SendCTCPReply) ---- *)
+
+(* They panic exactly on the empty CTCP type ... *)
+Theorem C14_send_panic : forall target k msg,
+  (send_ctcp target k msg = Panic <-> k = []) /\ (send_ctcp_reply target k msg = Panic <-> k = []).
+Proof. exact send_panic_iff. Qed.
+Print Assumptions C14_send_panic.
+
+(* ... and for a well-formed type what they send is, for whoever receives it, the CTCP request
+   (PRIVMSG) resp. reply (NOTICE) with the same type and text. *)
+Theorem C14_send_roundtrip : forall target k msg src, ctcp_tag k ->
+  exists q r, send_ctcp target k msg = Ok q /\ send_ctcp_reply target k msg = Ok r /\
+    decode_ctcp (mk_event src (ev_command q) (ev_params q)) = Ok (Some (mk_ctcp src k msg false)) /\
+    decode_ctcp (mk_event src (ev_command r) (ev_params r)) = Ok (Some (mk_ctcp src k msg true)).
+Proof. exact send_roundtrip. Qed.
+Print Assumptions C14_send_roundtrip.
+
+(* The encoder does not validate the type: SendCTCP(target, "version", ...) goes out and is
+   not CTCP for the receiver. *)
+Theorem C14_send_bad_type : forall target k msg src q, ~ In 32 k -> ~ Forall tag_byte k ->
+  send_ctcp target k msg = Ok q ->
+  decode_ctcp (mk_event src (ev_command q) (ev_params q)) = Ok None.
+Proof. exact send_bad_type. Qed.
+Print Assumptions C14_send_bad_type.
